@@ -57,8 +57,15 @@ Schema(s) ==
     [] s = 7 -> (* case-insensitive context: titles of multi sections, unique titles *)
          << DSec("t", {"MULTI","TITLE"}, << DInt("x", "5") >>),
             DSec("u", {"MULTI","TITLE","NO_TITLE_DUPES"}, << DInt("x", "5") >>) >>
-    [] s = 10 -> (* annotations next to long quoted values (scratch buffer reuse in the scanner) *)
-         << DStr("s", "d"), DInt("i", "7") >>
+    [] s = 10 -> (* annotations next to long quoted values (scratch buffer reuse in the scanner), and on lists *)
+         << DStr("s", "d") >>
+    [] s = 13 -> (* annotation on a list, trailing comma *)
+         << DIntList("l", <<>>) >>
+    [] s = 11 -> (* a deprecated / dropped option as the last item of a section body *)
+         << DSec("sec", {}, << DInt("x", "5"), WithFlags(DInt("old", "1"), {"DEPRECATED","DROP"}) >>),
+            DSec("m", {"MULTI"}, << WithFlags(DIntList("ol", <<>>), {"DEPRECATED","DROP"}) >>) >>
+    [] s = 12 -> (* a free-form section in a context that ignores unknown items *)
+         << DInt("i", "7"), DSec("kv", {"KEYSTRVAL"}, <<>>) >>
     [] s = 9 -> (* one titled multi section with a pointer: replacement in place, release of the old instance *)
          << DSec("t", {"MULTI","TITLE"}, << DInt("x", "5"), DPtr("p") >>) >>
     [] s = 8 -> (* two lists with defaults: interplay of consecutive list assignments *)
@@ -68,7 +75,7 @@ NoCase(s) == s \in {6, 7}
 
 ValuePool(s) ==
   CASE s = 1 -> {"1", "x", "true", "1.5"}
-    [] s = 2 -> IF Mode = "ignore" THEN {"1"} ELSE {"1", "x"}
+    [] s = 2 -> IF Mode \in {"ignore", "ignorecmt"} THEN {"1"} ELSE {"1", "x"}
     [] s = 3 -> {"1", "x"}
     [] s = 4 -> {"1", "x"}
     [] s = 5 -> {"1", "x"}
@@ -77,7 +84,10 @@ ValuePool(s) ==
     [] s = 8 -> {"1"}
     [] s = 9 -> {"1"}
     [] s = 10 -> {"a b c d e f"}
-TitlePool(s) == IF s \in {2, 3, 4} THEN (IF Mode = "ignore" THEN {"a"} ELSE {"a", "b"})
+    [] s = 13 -> {"1"}
+    [] s = 11 -> {"1"}
+    [] s = 12 -> {"1"}
+TitlePool(s) == IF s \in {2, 3, 4} THEN (IF Mode \in {"ignore", "ignorecmt"} THEN {"a"} ELSE {"a", "b"})
                 ELSE IF s = 7 THEN {"a", "A"} ELSE IF s = 9 THEN {"a"} ELSE {}
 
 (* ------------------------------------------------------------------ *)
@@ -96,6 +106,7 @@ NlUsed == LET F[i \in 0..Len(hist)] == IF i = 0 THEN 0 ELSE F[i-1] + hist[i].nl 
 
 CommentTokens ==
   CASE Mode = "comments" -> {Tk("cmt", "c1", 0), Tk("cmt", "", 0)}
+    [] Mode = "ignorecmt" -> {Tk("cmt", "c1", 0)}
     [] Mode = "lines"    -> {Tk("cmt", "c1", 0)} \cup
                             (IF NlUsed < NlBudget THEN {[Tk("cmt", "c1\nc2", 0) EXCEPT !.nlin = 1]} ELSE {})
     [] OTHER             -> {}
@@ -125,6 +136,7 @@ Cfgs ==
     [] Mode = "comments"  -> {ParseCfg(FALSE, c, FALSE, 0, 0, 0) : c \in BOOLEAN}
     [] Mode = "lines"     -> {ParseCfg(FALSE, FALSE, FALSE, 0, 0, 0)}
     [] Mode = "ignore"    -> {ParseCfg(FALSE, FALSE, TRUE, 0, 0, 0)}
+    [] Mode = "ignorecmt" -> {ParseCfg(FALSE, TRUE, TRUE, 0, 0, 0)}
     [] Mode = "callbacks" -> (* no failure, or exactly one failing invocation (1st / 2nd of a kind) *)
                              {ParseCfg(FALSE, FALSE, FALSE, fp, fv, ff) :
                                 fp \in 0..2, fv \in 0..2, ff \in 0..1} \cap
@@ -178,7 +190,7 @@ StartRoot == IF done = <<>> THEN root0 ELSE done[Len(done)].root
 RefNow(withEof) ==
   Meaning(StartRoot, FALSE, IF withEof THEN Append(hist, TkEof) ELSE hist,
           [nocase |-> pcfg.nocase, ignore |-> pcfg.ignore])
-RefModes == {"plain", "comments", "lines", "ignore"}
+RefModes == {"plain", "comments", "lines", "ignore", "ignorecmt"}
 P_C01_ViablePrefix ==
   (Mode \in RefModes /\ ps.status \in {"more", "fail", "unspec"}) =>
      RefNow(FALSE).st = ps.status
@@ -232,11 +244,12 @@ P_C15_Annotation ==
 (* effect, and P_C01_AcceptIffGrammar ties the state machine to it);       *)
 (* no diagnostic; and without the flag the same text is rejected.          *)
 P_C12_Silent ==
-  (Mode = "ignore" /\ ps.status = "more" /\ PStep(ps, TkEof).status = "ok") => PStep(ps, TkEof).diags = <<>>
+  (Mode \in {"ignore", "ignorecmt"} /\ ps.status = "more" /\ PStep(ps, TkEof).status = "ok") => PStep(ps, TkEof).diags = <<>>
 HasUnknownItem ==
   \E i \in 1..Len(hist) : hist[i] = TkStr("zz") /\ (i = 1 \/ hist[i-1].k \in {"str", "}", ")"})
 P_C12_RejectedWithout ==
-  (Mode = "ignore" /\ ps.status = "more" /\ PStep(ps, TkEof).status = "ok") =>
+  (* (inside a free-form section every key is "declared": not part of this statement) *)
+  (Mode \in {"ignore", "ignorecmt"} /\ sid # 12 /\ ps.status = "more" /\ PStep(ps, TkEof).status = "ok") =>
      LET q == PRun([StartPs EXCEPT !.pc.ignore = FALSE], Append(hist, TkEof))
          r == Meaning(StartRoot, FALSE, Append(hist, TkEof), [nocase |-> pcfg.nocase, ignore |-> FALSE])
      IN /\ q.status = r.st
